@@ -92,9 +92,10 @@ def rule_wire(ctx) -> None:
                    f"header window {[(w[0], w[1]) for w in hdr]} layout {hdr_lay}; signature block window {[(w[0], w[1], norm(w[2]), w[3]) for w in sb]}", "", A.loc(CNT, ex.node))
     # certificate: exported bytes = signed bytes + signatures
     ce = ctx.own(CERT, "AhabCertificate", "export")
-    body = [norm(s) for s in A.body_of(ce.node) if not (isinstance(s, ast.Expr) and isinstance(s.value, ast.Constant))]
-    ok = body[:2] == ["cert = self.get_signature_data()", "cert += self.signature_0.export()"] and body[-1] == "return cert" and all("cert +=" not in b or "signature_" in b for b in body)
-    ctx.chk.decide(ok, "C06.signed-range", ce.qual, "certificate = signed data followed only by its signature container(s)", "; ".join(body)[:240], "", A.loc(CERT, ce.node))
+    lay = bytelayout.normal_form(lambda e: ctx.prog.fold(e, ce.module, ce.cls), ce.node)
+    # (as a field list: however the bytes are put together) signed data first, then nothing but signature containers
+    want_l = [(None, "bytes", "self.get_signature_data()"), (None, "bytes", "self.signature_0.export()"), (None, "alt", "self.signature_1", [[(None, "bytes", "self.signature_1.export()")], []])]
+    ctx.chk.decide(lay == want_l, "C06.signed-range", ce.qual, "certificate = signed data followed only by its signature container(s)", f"{lay}"[:300], "", A.loc(CERT, ce.node))
 
 
 # --------------------------------------------------------------------------- flags (E2)
@@ -735,14 +736,22 @@ def rule_srk(ctx) -> None:
         cf = ctx.own(SRK, cn, "create_from_key")
         for kind, a, b in (("PublicKeyRsa", "par_n", "par_e"), ("PublicKeyEcc", "par_x", "par_y")):
             # the paths on which the key is of this kind and a record is returned (whatever the branch layout)
-            ps = [q for q in A.gpaths(cf.node) if q.end == "return" and q.assumes(f"isinstance(public_key, {kind})", True)]
+            ps = [q for q in A.spaths(cf.node) if q.end == "return" and q.assumes(f"isinstance(public_key, {kind})", True)]
             if not ps:
                 raise AnalysisError(f"C06.srk-tables: {kind} branch of {cf.qual} not found")
-            pm = ast.Module(body=ps[0].stmts, type_ignores=[])
+            # the returned record with the locals of the path substituted (par_n / par_e / par_x / par_y are kept by name)
+            keep = {k: v for k, v in ps[0].env.items() if k in (a, b)}
+            ret = ps[0].stmts[-1]
+            env2 = {k: v for k, v in ps[0].env.items() if k not in (a, b)}
+            pm = ast.Module(body=[ast.Expr(value=A._sub(ret.value, env2))], type_ignores=[])
+            ks_txt = norm(ps[0].env["key_size"]) if "key_size" in ps[0].env else "key_size"
             tb = [c for c in A.calls_in(pm, "to_bytes")]
             sig = [(norm(c.func.value), norm(A.arg_of(c, 0, "length")), norm(A.arg_of(c, 1, "byteorder"))) for c in tb]
-            want = [(a, "cls.KEY_SIZES[key_size][0]", "Endianness.BIG.value"), (b, "cls.KEY_SIZES[key_size][1]", "Endianness.BIG.value")]
+            want = [(a, f"cls.KEY_SIZES[{ks_txt}][0]", "Endianness.BIG.value"), (b, f"cls.KEY_SIZES[{ks_txt}][1]", "Endianness.BIG.value")]
             cp = [k.value for c in A.calls_in(pm) for k in c.keywords if k.arg == "crypto_params"]
+            ksz = [norm(k.value) for c in A.calls_in(pm) for k in c.keywords if k.arg == "key_size"]
+            if ksz[:1] != [ks_txt]:
+                sig = sig + [("key_size keyword", str(ksz), "differs from the table row used for the lengths")]
             order_ok = bool(cp) and isinstance(cp[0], ast.BinOp) and norm(cp[0].left.func.value) == a and norm(cp[0].right.func.value) == b if cp and isinstance(cp[0], ast.BinOp) and isinstance(cp[0].left, ast.Call) and isinstance(cp[0].right, ast.Call) else False
             br = [ps[0].stmts[-1]]
             if cn == "SRKRecordV2" and not tb:
